@@ -175,7 +175,7 @@ class AsyncRunnerTemplate(BaseRunner, ABC):
         _validate_error_handling(error_handling)
         _validate_max_concurrency(max_concurrency)
 
-        max_iter = max_iterations or self.default_max_iterations
+        max_iter = self.default_max_iterations if max_iterations is None else max_iterations
         dispatcher = self._create_dispatcher(event_processors)
         run_id, run_span_id = await self._emit_run_start_async(
             dispatcher,
